@@ -325,6 +325,18 @@ def check(ctx):
         else:
             ident = _site(ctx, fc, "distribution transform", pc.bij(parts[1]), -1)
         _site(ctx, fc, "initial value of the new variable", pc.apply(init_val), -1, ident)
+        # the deprecated method promises up-to-date inputs: it builds a throw-away local
+        # model of the variable (a full sweep) before it reads the distribution / value
+        i_model = [i for i, (t, _, _) in enumerate(rc.calls)
+                   if is_call(t, f"{MODEL}.Model") and t[2][:1] == (("list", (n("var"),)),)]
+        i_read = [i for i, (t, _, _) in enumerate(rc.calls)
+                  if t[0] == "call" and t[1][0] == "a" and t[1][2] == "init_dist"]
+        ctx.ob("C14.R1", fc, "GraphBuilder.transform sweeps a local model of the variable "
+                             "(Model([var])) before it reads its distribution and value, so "
+                             "the initial value is computed from current inputs",
+               len(i_model) == 1 and i_read and i_model[0] < min(i_read),
+               detail=f"Model([var]) at call #{i_model}, first init_dist at #{i_read[:1]}",
+               stmt="local model sweep")
         tb = repo.func(f"{MODEL}._transform_back")
         rtb = evaluate(repo, tb)
         inner = tb.nested("fn")
